@@ -4,6 +4,7 @@ import (
 	"context"
 	"errors"
 	"fmt"
+	"github.com/metal-toolbox/auditevent"
 	"strconv"
 	"strings"
 	"time"
@@ -91,8 +92,8 @@ func childC05(args []string) {
 			if l.CredUserID != wantCred {
 				out.violation(sig+":cred", fmt.Sprintf("forwarded CredUserID %q want %q", l.CredUserID, wantCred), wit)
 			}
-			if l.Source != o.Calls[0].Ptr {
-				out.violation(sig+":identity-not-the-written-event", "forwarded Source is not the pointer that was written", wit)
+			if !sameEvent(l.Source, o.Calls[0]) {
+				out.violation(sig+":identity-not-the-written-event", "forwarded Source is neither the event that was written nor a copy with the same content: "+jsonOf(l.Source)+" vs written "+string(o.Calls[0].Snap), wit)
 			}
 			if l.Validate() != nil {
 				out.violation(sig+":invalid-login", fmt.Sprint(l.Validate()), wit)
@@ -135,7 +136,7 @@ func childC05(args []string) {
 				if !(calls[0].SeqRet < g.stamp) {
 					out.violation("C05:rendezvous:received-before-write-returned", fmt.Sprintf("write returned at %d, login received at %d", calls[0].SeqRet, g.stamp), wit)
 				}
-				if g.l.Source != calls[0].Ptr {
+				if !sameEvent(g.l.Source, calls[0]) {
 					out.violation("C05:rendezvous:identity-not-the-written-event", "forwarded Source differs from the written event", wit)
 				}
 				_ = retStamp
@@ -390,7 +391,7 @@ func slowHandoff(ctx context.Context, out *childOut, prefix string, seed int64, 
 		select {
 		case l := <-sc.logins:
 			calls := sc.rec.Calls()
-			if len(calls) != 1 || l.Source != calls[0].Ptr || l.PID != 4242 {
+			if len(calls) != 1 || !sameEvent(l.Source, calls[0]) || l.PID != 4242 {
 				out.violation(prefix+":slow:wrong-login:"+sc.via+":"+sc.c.Form, fmt.Sprintf("login pid=%d events=%d", l.PID, len(calls)), wit)
 			}
 		case <-time.After(30 * time.Second):
@@ -406,4 +407,14 @@ func slowHandoff(ctx context.Context, out *childOut, prefix string, seed int64, 
 			out.violation(prefix+":slow:no-return-after-delivery:"+sc.via+":"+sc.c.Form, "call did not return after the login was received", wit)
 		}
 	}
+}
+
+// sameEvent: the forwarded identity is the event that was written - the very
+// pointer, or a copy whose content (uuid and timestamp included) equals what
+// the writer was given.
+func sameEvent(src *auditevent.AuditEvent, c vlib.Call) bool {
+	if src == nil {
+		return false
+	}
+	return src == c.Ptr || jsonOf(src) == string(c.Snap)
 }
